@@ -1,5 +1,6 @@
 import PlumVerif.Model.Pool
 import PlumVerif.Model.Fanout
+import PlumVerif.Model.Pipe
 import PlumVerif.Spec.C09
 /- line-protocol front end for the C09 pool machine
 
@@ -163,7 +164,27 @@ def fanOps : List String → Option String
     | _ => none
   | _ => none
 
+/-! composed pipeline (Model/Pipe.lean)
+
+  c09pipe <n> <net> <ver> <addresses with a device class a,a|-> <frame>… | <frame>… | …     (batches as for `c09`)
+      -> <id.addr,… of the delivered frames that carry data, by THE device of which address> <device map addr.dev,…>
+         <replies written to the transport> <frames left in the write queue> -/
+def pipeOps : List String → Option String
+  | "c09pipe" :: n :: net :: ver :: crw :: rest => do
+    let n ← n.toNat?
+    let net ← Net.decode (← parseHex net)
+    let ver ← parseVer ver
+    let crl ← parseL crw String.toNat?
+    let batches ← parseBatchesH 0 (splitBar rest)
+    let all := (batches.map (·.2)).flatten
+    let s := Pipe.replay ⟨net, ver⟩ (fun a => crl.contains a) n batches
+    let pairs := s.deliveredTo.reverse.filter fun p => all.any fun f => f.id == p.1 && decide (0 < f.items)
+    let addrOf := fun (d : Nat) => ((s.devOf.find? fun e => e.2 == d).map (·.1)).getD 999
+    pure s!"{showL (pairs.map fun p => s!"{p.1}.{addrOf p.2}")} {showL (s.devOf.map fun e => s!"{e.1}.{e.2}")} {showL (s.written.reverse.map showReply)} {s.wqueue.length}"
+  | _ => none
+
 def poolOps : List String → Option String
+  | "c09pipe" :: ws => pipeOps ("c09pipe" :: ws)
   | "fan" :: ws => fanOps ("fan" :: ws)
   | "fanjudge" :: ws => fanOps ("fanjudge" :: ws)
   | "c09" :: contain :: n :: net :: ver :: rest => do
